@@ -75,7 +75,7 @@ func init() {
 	c05.ExtraEvery = func(s *kv.Sim, vi int) { s.JudgeQueries(0, (vi/16)%2) }
 	sup.Register(&sup.Check{
 		Prop: "C05", Level: "exploration",
-		Rule:        "engine A with every observer judged after every step: GetRaw/Exists/GetWithXattrs/GetXattrs read-back, the mutation's live feed event, a Dump backfill of the touched key, and the behaviour of the following insert-style write; delete-path x resurrect-path x follow-up sequences enumerated from the setup/variant/follow-up catalogues plus random delete/resurrect-heavy histories with PurgeTombstones; a cell is a distinct (op variant, pre-state class, outcome, bucket type); the SQL query family runs inside the histories: a row for a key without a body is a violation",
+		Rule:        "engine A with every observer judged after every step: GetRaw/Exists/GetWithXattrs/GetXattrs read-back, the mutation's live feed event, a Dump backfill of the touched key, and the behaviour of the following insert-style write; delete-path x resurrect-path x follow-up sequences enumerated from the setup/variant/follow-up catalogues plus random delete/resurrect-heavy histories with PurgeTombstones; a cell is a distinct (op variant, pre-state class, outcome, bucket type); the SQL query family runs inside the histories: a row for a key without a body is a violation; view indexes exist and are refreshed in the histories (PurgeTombstones must not trip over their rows); live events of writes over tombstones must carry none of the tombstone's xattrs",
 		Assumptions: kvAssume,
 		Parts: []sup.Part{
 			exhaustivePart("exhaustive", c05),
@@ -123,7 +123,7 @@ func init() {
 	}
 	sup.Register(&sup.Check{
 		Prop: "C07", Level: "exploration",
-		Rule:        "engine A with documents carrying 0-5 system and user xattrs; after every step the read-back of every xattr name in the pool is compared: names the call did not mention must be byte-identical, fresh values JSON-equivalent, macro expansions equal to the new CAS / CRC32-C of the stored body (computed independently); failure injection by stale CAS, missing xattr, oversize (MaxDocSize lowered), unparseable xattr JSON and argument-validation errors, each followed by the frame rule; (forced windows) expiry and macro specs of a WriteUpdateWithXattrs attempt that lost its CAS check must not be applied by the retry, the exp argument must be honoured; macro paths that name only the xattr (argument error: no panic, nothing applied); xattr values followed by surplus closing braces / brackets / trailing text; cell = (op variant, pre-state class, outcome, bucket type)",
+		Rule:        "engine A with documents carrying 0-5 system and user xattrs; after every step the read-back of every xattr name in the pool is compared: names the call did not mention must be byte-identical, fresh values JSON-equivalent, macro expansions equal to the new CAS / CRC32-C of the stored body (computed independently); failure injection by stale CAS, missing xattr, oversize (MaxDocSize lowered), unparseable xattr JSON and argument-validation errors, each followed by the frame rule; (forced windows) expiry and macro specs of a WriteUpdateWithXattrs attempt that lost its CAS check must not be applied by the retry, the exp argument must be honoured; macro paths that name only the xattr (argument error: no panic, nothing applied); xattr values followed by surplus closing braces / brackets / trailing text; macro paths of three and four components; cell = (op variant, pre-state class, outcome, bucket type)",
 		Assumptions: append([]string{"WithMeta xattr blobs are generated in encoding/json canonical form (rosmar stores them verbatim and normalises them on the next xattr write)"}, kvAssume...),
 		Parts: []sup.Part{
 			exhaustivePart("exhaustive", c07),
@@ -181,7 +181,7 @@ func init() {
 	c11r.Keys = []string{"k0", "k1", "k2"}
 	sup.Register(&sup.Check{
 		Prop: "C11", Level: "exploration",
-		Rule:        "engine A on 2 buckets x 4 collections (the default one, the same collection name in two scopes, two collections in one scope) that all hold the same key names: after every step the same key is re-read in every other collection and bucket and must be byte-identical to its last read-back (isolation frame), every other collection's feed must stay silent and events must carry the addressed collection's id; periodic full sweeps; PurgeTombstones, DropDataStore + re-create, Touch in the op mix; (non-interference) two buckets get the same history on c0, one of them also gets writes, WithMeta writes, deletions and drops on c1/c2: non-stale views (5 parameter shapes x 4 views) and 3 SQL statements over c0 must return identical results in both; (stale DataStore) handle A drops a collection and creates another (or the same name again), handle B then issues 14 kinds of writes through the DataStore it still holds for the dropped collection: every key of every other collection must keep its read-back and their feeds stay silent; the non-interference run also compares the live feed of c0 (key, opcode, expiry, datatype) between the two buckets; an expression index is created on a sibling collection in half of the non-interference runs; (stale DataStore) a DataStore asked for by name after the drop and re-creation must be the collection that exists now; the bucket's earliest deadline may sit in a collection that is dropped before it comes due; cell = (op variant, pre-state class, outcome, bucket type)",
+		Rule:        "engine A on 2 buckets x 4 collections (the default one, the same collection name in two scopes, two collections in one scope) that all hold the same key names: after every step the same key is re-read in every other collection and bucket and must be byte-identical to its last read-back (isolation frame), every other collection's feed must stay silent and events must carry the addressed collection's id; periodic full sweeps; PurgeTombstones, DropDataStore + re-create, Touch in the op mix; (non-interference) two buckets get the same history on c0, one of them also gets writes, WithMeta writes, deletions and drops on c1/c2: non-stale views (5 parameter shapes x 4 views) and 3 SQL statements over c0 must return identical results in both; (stale DataStore) handle A drops a collection and creates another (or the same name again), handle B then issues 14 kinds of writes through the DataStore it still holds for the dropped collection: every key of every other collection must keep its read-back and their feeds stay silent; the non-interference run also compares the live feed of c0 (key, opcode, expiry, datatype) between the two buckets; an expression index is created on a sibling collection in half of the non-interference runs; (stale DataStore) a DataStore asked for by name after the drop and re-creation must be the collection that exists now; the bucket's earliest deadline may sit in a collection that is dropped before it comes due; (failed view query) a view query failing part-way on a sibling collection must not keep the other collections from answering (10 s per probe); the sibling's index is also created with a filter containing a top-level OR; cell = (op variant, pre-state class, outcome, bucket type)",
 		Assumptions: append([]string{"inside engine A DropDataStore is exercised through the only open handle of the bucket (a sibling handle keeps a stale Collection object by design of the API); what that stale object may do to OTHER collections is judged by the stale-handle part, what it returns itself is not"}, kvAssume...),
 		Parts: []sup.Part{
 			exhaustivePart("exhaustive-sibling-has-key", c11),
